@@ -339,11 +339,15 @@ def copyMap (src tgt : Tbl) : List (Nat × Nat) :=
     | some l2 => some (l, l2)
     | none => none
 
-/-- `copy_bdd(u, from_bdd, to_bdd)` (different managers), run in the target -/
-def copyBdd (src : Tbl) (u : Int) : M Int := fun m =>
+/-- body of `_copy_bdd_to(to_bdd, u, from_bdd)` (inside the decorator of the target) -/
+def copyBddBody (src : Tbl) (u : Int) : M Int := fun m =>
   match copyBddF (some src) (copyMap src m.tbl) (src.nvars + 2) u {} m with
   | (.error e, m1) => (.error e, m1)
   | (.ok (r, _), m1) => (.ok r, m1)
+
+/-- `copy_bdd(u, from_bdd, to_bdd)` (different managers), run in the target inside its
+`_try_to_reorder` -/
+def copyBdd (src : Tbl) (u : Int) : M Int := tryToReorder (copyBddBody src u)
 
 /-! ### let -/
 
